@@ -4,6 +4,7 @@ package c01
 
 import (
 	"fmt"
+	"os"
 	"sync/atomic"
 	"testing"
 
@@ -203,6 +204,7 @@ func run(c Case) (pbt.Outcome, error) {
 		})
 	}
 	res := s.Run()
+	lastOptions = res.Options
 	tally.VerifSetHooks(nil)
 	log.OnCall = nil
 	for _, p := range res.Panics {
@@ -293,4 +295,46 @@ func TestC01(t *testing.T) {
 		Rule: "cooperative-scheduler mode: rapid generates a program (1..3 counters and 0..2 histograms on the root and 0..2 subscopes, 1..3 incrementer threads with deltas from {0,+-1,+-2,+-2^31,int64 extremes}, 1..3 reporter threads each running 1..3 modelled ticker passes or close-then-re-acquire of a subscope; plain/cached; shard count 1/2/4) AND the schedule (<=150 choices at the verif yield points between the individual atomic loads/stores of the delta computation, per metric, per scope, at lock hand-overs and at every reporter call). After all threads finish: one sequential pass, then a second that must deliver nothing. Oracle per (name): delivered total == wrapping sum of increments (bounds [completed-before-Close, all] for scopes closed during the run), no zero delivery, no negative delta when all increments are non-negative, no panic/deadlock. Non-trivial: the trace shows another thread running while a pass sat inside a counter's load/load/store window. Distinct: FNV-64 of program+schedule JSON.",
 		Gen:  gen, Run: run, Retries: 30,
 	})
+}
+
+// ---------------------------------------------------------------- bounded-exhaustive micro-scenarios
+
+var lastOptions []int
+
+func runRecordingOptions(c Case) (pbt.Outcome, error) {
+	out, err := run(c)
+	return out, err
+}
+
+// TestExhaustive enumerates EVERY schedule with at most 3 preemptions of two
+// deterministic micro-scenarios (one counter on the root, shard count 1, so no
+// map-order or shard-seed randomness): one incrementer doing two increments
+// against two concurrent report passes, plain and cached.
+func TestExhaustive(t *testing.T) {
+	prop := pbt.Prop[Case]{
+		ID: "C01", Name: "exhaustive",
+		Rule: "bounded-exhaustive mode: ALL schedules with at most 3 (quick) / 5 (thorough) non-default scheduler choices (preemptions) of two fixed deterministic micro-scenarios {one counter on the root, shard count 1, one incrementer thread doing Inc(1), Inc(2), two reporter threads doing one modelled pass each; plain and cached}, enumerated depth-first over the verif yield points; same oracle as the generated mode. Non-trivial: a pass was preempted inside the counter's delta window.",
+		Run:  run,
+	}
+	pbt.MainEnum(t, prop, func(emit func(c Case) bool) bool {
+		all := true
+		for _, cached := range []bool{false, true} {
+			base := Case{Cached: cached, Shards: 1, Counters: []int{0}, Incs: [][]IncOp{{{C: 0, D: 1}, {C: 0, D: 2}}}, Reps: [][]RepOp{{{K: "pass"}}, {{K: "pass"}}}}
+			_, ex := sched.Enumerate(enumBound(), 3000000, func(prefix []int) ([]int, bool) {
+				c := base
+				c.Sched = append([]int(nil), prefix...)
+				ok := emit(c)
+				return lastOptions, ok
+			})
+			all = all && ex
+		}
+		return all
+	})
+}
+
+func enumBound() int {
+	if os.Getenv("VERIF_TIER") == "thorough" {
+		return 5
+	}
+	return 3
 }
